@@ -11,11 +11,15 @@ structure SkipPost (s s' : State) (l : List Nat) : Prop where
   st : ∀ i, (s'.get i).st = (s.get i).st ∨
     ((s'.get i).st = .dirty ∧ (s.get i).st ≠ .clean ∧ i ∈ l ∧ (s.get i).kind = .memo)
   marked : ∀ w ∈ l, s.obs ≠ some w → (s.get w).kind = .memo → (s'.get w).st = .dirty
+  flags : FlagRel s s'
+  markedE : ∀ w ∈ l, s.obs ≠ some w → (s.get w).kind = .eff → (s.get w).alive = true →
+    (s'.get w).dirty = true
 
 theorem foldl_skip_spec (f : Nat) : ∀ (l : List Nat) (s : State), Closed s →
     (∀ w ∈ l, (s.get w).kind = .memo → (s.get w).st ≠ .clean) →
     SkipPost s (l.foldl (fun s x => if s.obs == some x then s else markDirty f s x) s) l
-  | [], s, _, _ => ⟨MarkRel.refl s, fun _ => .inl rfl, fun _ h => by cases h⟩
+  | [], s, _, _ => ⟨MarkRel.refl s, fun _ => .inl rfl, fun _ h => (by cases h), FlagRel.refl s,
+      fun _ h => (by cases h)⟩
   | x :: l, s, hc, hl => by
     rw [List.foldl_cons]
     generalize hs1 : (if s.obs == some x then s else markDirty f s x) = s1
@@ -49,7 +53,17 @@ theorem foldl_skip_spec (f : Nat) : ∀ (l : List Nat) (s : State), Closed s →
       rw [hr1.kind] at hk
       exact hr1.nonclean (hl w (List.mem_cons_of_mem _ hw) hk))
     generalize l.foldl (fun s x => if s.obs == some x then s else markDirty f s x) s1 = s2 at ih
-    refine ⟨hr1.trans ih.rel, ?_, ?_⟩
+    have hf1 : FlagRel s s1 := by
+      subst hs1; split
+      · exact FlagRel.refl s
+      · exact markDirty_flag f s x
+    have hmE1 : s.obs ≠ some x → (s.get x).kind = .eff → (s.get x).alive = true →
+        (s1.get x).dirty = true := by
+      intro ho hk ha
+      subst hs1
+      rw [if_neg (by simpa using ho)]
+      exact (markDirty_eff_flags f s x hk ha).1
+    refine ⟨hr1.trans ih.rel, ?_, ?_, hf1.trans ih.flags, ?_⟩
     · intro i
       rcases ih.st i with h2 | h2
       · rcases hst1 i with h1 | h1
@@ -63,6 +77,11 @@ theorem foldl_skip_spec (f : Nat) : ∀ (l : List Nat) (s : State), Closed s →
       rcases List.mem_cons.1 hw with rfl | hw
       · exact ih.rel.dirty (hm1 ho hk)
       · exact ih.marked w hw (by rw [hr1.obs]; exact ho) (by rw [hr1.kind]; exact hk)
+    · intro w hw ho hk ha
+      rcases List.mem_cons.1 hw with rfl | hw
+      · exact ih.flags.d w (hmE1 ho hk ha)
+      · exact ih.markedE w hw (by rw [hr1.obs]; exact ho) (by rw [hr1.kind]; exact hk)
+          (by rw [(Node.core_life (hr1.core w)).1]; exact ha)
 
 /-! ## the end of a memo run -/
 
@@ -84,6 +103,7 @@ structure FinRel (s5 s8 : State) (m : Nat) (v : Int) (saved : Option Nat) : Prop
   verUp : ∀ i, i ≠ m → (s8.get i).st ≠ (s5.get i).st → (s5.get m).ver < (s8.get m).ver
   effD : ∀ i, i ≠ m → (s8.get i).dirty = true → (s5.get i).dirty = true ∨
     (i ∈ (s5.get m).subs ∧ saved ≠ some i ∧ (s5.get m).ver < (s8.get m).ver)
+  flags : FlagRel s5 s8
 
 theorem finish_inv {p : Prog} {s5 s8 : State} {m : Nat} {v : Int} {saved : Option Nat}
     (h5 : InvR p s5) (loc : RunLoc s5 m) (fr : FinRel s5 s8 m v saved)
@@ -269,6 +289,7 @@ theorem finish_frame {p : Prog} {s5 s8 : State} {m : Nat} {v : Int} {saved : Opt
     rcases fr.effD i him hd with h | h
     · exact .inl h
     · exact .inr ⟨m, (h5.edge m i).1 h.1, h.2.2⟩
+  flags := fr.flags
 
 /-- store the new value (with the observer restored) -/
 def storeVal (s : State) (id : Nat) (old : Option Int) (saved : Option Nat) (v : Int) : State :=
@@ -345,7 +366,16 @@ theorem finishRun_rel {p : Prog} {s5 : State} {m : Nat} (f : Nat) (old : Option 
       · rw [hsubs7] at h; exact absurd h.2.2.1 hmm
     have verm : (s8.get m).ver = (s5.get m).ver + 1 := by
       rw [sp.rel.ver, ge, g7m]; simp only [hch, if_true]
-    refine ⟨⟨?_, ?_, ?_, ?_, ?_, st8m, ?_, ?_, ?_, ?_, ?_, ?_, ?_, ?_⟩, hch.symm, fun _ => by rw [verm]; omega, ?_⟩
+    have hfl8 : FlagRel s5 s8 := by
+      have h57 : FlagRel s5 s7e := by
+        apply FlagRel.of_same
+        intro i
+        rw [ge]
+        by_cases hi : i = m
+        · subst hi; rw [g7m]; exact ⟨rfl, rfl, rfl⟩
+        · rw [g7o i hi]; exact ⟨rfl, rfl, rfl⟩
+      exact h57.trans sp.flags
+    refine ⟨⟨?_, ?_, ?_, ?_, ?_, st8m, ?_, ?_, ?_, ?_, ?_, ?_, ?_, ?_, hfl8⟩, hch.symm, fun _ => by rw [verm]; omega, ?_⟩
     · rw [sp.rel.len]; subst hs7e; exact len7
     · rw [sp.rel.obs]; exact obs7e
     · intro hl
@@ -378,10 +408,15 @@ theorem finishRun_rel {p : Prog} {s5 : State} {m : Nat} (f : Nat) (old : Option 
   · rw [if_neg hch]
     have hch' : (old != some v) = false := by simpa using hch
     refine ⟨⟨len7, obs7, fun hl i => by rw [log7]; exact hl i, by rw [g7m], by rw [g7m], by rw [g7m],
-      by rw [g7m], by rw [g7m], by rw [g7m], by rw [g7m], ver7, ?_, ?_, ?_⟩, hch'.symm, ?_, ?_⟩
+      by rw [g7m], by rw [g7m], by rw [g7m], by rw [g7m], ver7, ?_, ?_, ?_, ?_⟩, hch'.symm, ?_, ?_⟩
     · intro i hi; rw [g7o i hi]; exact ⟨rfl, .inl rfl⟩
     · intro i hi hne; rw [g7o i hi] at hne; exact absurd rfl hne
     · intro i hi hd; rw [g7o i hi] at hd; exact .inl hd
+    · apply FlagRel.of_same
+      intro i
+      by_cases hi : i = m
+      · subst hi; rw [g7m]; exact ⟨rfl, rfl, rfl⟩
+      · rw [g7o i hi]; exact ⟨rfl, rfl, rfl⟩
     · intro h; exact absurd h hch
     · intro h; exact absurd h hch
 
@@ -701,8 +736,8 @@ theorem restamp_spec {p : Prog} {s : State} {m : Nat} (h : InvR p s) (hk : (s.ge
   refine ⟨hinv, ?_, hobs, fun i => (cf i).2.2.2.2.2.1, fun _ => stm, (cf m).2.2.2.1, fun hc => (by cases hc),
     fun o _ _ hd => .inl (by rw [← dE]; exact hd)⟩
   refine ⟨hlen, fun i => (cf i).1, ?_, fun i => by rw [(cf i).2.2.2.2.2.2.2.1]; exact Nat.le_refl _,
-    fun i _ => (cf i).2.2.2.2.2.2.2.1, ?_, fun hl i => by rw [hlog]; exact hl i, fun i _ => hcore i,
-    fun i _ hd => .inl (by rw [← dE]; exact hd)⟩
+    fun i _ => (cf i).2.2.2.2.2.2.2.1, ?_, fun hl i => (by rw [hlog]; exact hl i), fun i _ => hcore i,
+    fun i _ hd => .inl (by rw [← dE]; exact hd), ?_⟩
   · intro i hi
     refine ⟨?_, (cf i).2.1⟩
     by_cases him : i = m
@@ -710,6 +745,11 @@ theorem restamp_spec {p : Prog} {s : State} {m : Nat} (h : InvR p s) (hk : (s.ge
     · rw [sto i him]; exact hi
   · intro i hi
     exact ⟨hcore i, .inl (sto i (by omega))⟩
+  · apply FlagRel.of_same
+    intro i
+    by_cases hi : i = m
+    · subst hi; rw [gm]; exact ⟨rfl, rfl, rfl⟩
+    · rw [go i hi]; exact ⟨rfl, rfl, rfl⟩
 
 theorem UpdPost.refl {p : Prog} {s : State} {m : Nat} (h : InvR p s)
     (hc : (s.get m).kind = .memo → (s.get m).st = .clean) : UpdPost p s m (s, false) :=
